@@ -528,12 +528,56 @@ Proof.
   apply np_bind; [apply type_line_np|]. intros r2 _. apply type_line_np.
 Qed.
 
+Lemma skip_cstr_marker_loop_ok fuel : forall r st, ok r (skip_cstr_marker_loop fuel r st).
+Proof.
+  induction fuel as [|f IH]; intros r st; cbn [skip_cstr_marker_loop]; [apply ok_err|].
+  destruct (ensure r 1) as [r1 [[]|e|]] eqn:E.
+  - eapply ok_trans; [rewrite <- E; apply ensure_ok|].
+    destruct (r_buf r1) as [|b rest] eqn:Hb; [apply ok_err|].
+    destruct (set_buf_tail r1 b rest Hb) as (S1 & S2 & S3).
+    assert (Hstep : forall v : bool, ok r1 (set_buf r1 rest, MOk v)).
+    { intro v. unfold ok; cbn [fst snd]. rewrite S1, S3. repeat split; try congruence; lia. }
+    destruct (byte_eqb b x00); [apply Hstep|].
+    eapply ok_trans; [exact (Hstep true)|apply IH].
+  - pose proof (ensure_ok r 1) as K. rewrite E in K.
+    destruct e; eapply ok_state_eq; try exact K; congruence.
+  - pose proof (ensure_ok r 1) as K. rewrite E in K. destruct K as (K & _). exfalso; apply K; reflexivity.
+Qed.
+
+Lemma skip_lstr_is_marker_ok r : ok r (skip_lstr_is_marker r).
+Proof.
+  unfold skip_lstr_is_marker. apply ok_bind; [apply get_int32_ok|]. intros r1 len _.
+  destruct (Z.leb_spec len 0) as [Hn|Hp]; cbn [orb].
+  - apply ok_bind; [apply discard_ok|]. intros r2 _ _. apply ok_ret.
+  - destruct (Z.of_N (lenN secret_marker) + 1 <? len)%Z.
+    + apply ok_bind; [apply discard_ok|]. intros r2 _ _. apply ok_ret.
+    + destruct (ensure r1 len) as [r2 [[]|e|]] eqn:E; cbn [bind].
+      * pose proof E as E'. apply ensure_spec in E'. destruct E' as (_ & E1 & E2 & E3 & E4 & _).
+        specialize (E4 eq_refl). assert (Hle : Z.to_N len <= lenN (r_buf r2)) by (destruct E4; lia).
+        cbn [r_read].
+        pose proof (lenN_firstn_skipn (r_buf r2) (N.to_nat (Z.to_N len))) as F1.
+        pose proof (lenN_skipn_le (r_buf r2) (N.to_nat (Z.to_N len))) as F2. rewrite N2Nat.id in F2. specialize (F2 Hle).
+        assert (Hstate : forall v : mres bool, v <> MPanic ->
+                 ok r1 (set_buf r2 (skipn (N.to_nat (Z.to_N len)) (r_buf r2)), v)).
+        { intros v Hv. unfold ok; cbn [fst snd]. unfold avail in *. cbn [set_buf r_buf r_in r_alloc].
+          repeat split; try assumption; lia. }
+        destruct (firstn (N.to_nat (Z.to_N len)) (r_buf r2)) as [|d0 dt] eqn:Fd.
+        -- exfalso. rewrite lenN_nil in F1. lia.
+        -- apply Hstate. congruence.
+      * eapply ok_err_of; [apply (ensure_ok r1 len)|exact E].
+      * pose proof (ensure_ok r1 len) as K. rewrite E in K. destruct K as (K & _). exfalso; apply K; reflexivity.
+Qed.
+
+Lemma skip_string_is_marker_ok enc r : ok r (skip_string_is_marker enc r).
+Proof. unfold skip_string_is_marker. destruct enc; [apply skip_lstr_is_marker_ok|apply skip_cstr_marker_loop_ok]. Qed.
+
 Lemma skip_loop_ok enc fuel : forall left r, ok r (skip_loop enc fuel left r).
 Proof.
   induction fuel as [|f IH]; intros left r; cbn [skip_loop];
     destruct (left <=? 0)%Z; try apply ok_ret; try apply ok_err.
   destruct (finished r); [apply ok_err|].
-  apply ok_bind; [apply skip_string_ok|]. intros r1 _ _. apply IH.
+  apply ok_bind; [apply skip_string_is_marker_ok|]. intros r1 mk _.
+  apply ok_bind; [destruct mk; [apply skip_string_ok|apply ok_ret]|]. intros r2 _ _. apply IH.
 Qed.
 Lemma skip_classad_raw_ok enc r : ok r (skip_classad_raw enc r).
 Proof.
